@@ -36,6 +36,31 @@ theorem C16_no_write_when_down (r p : Bool) (is : List In) (i : In) (d : Nat)
     s.connected = true ∧ s.cur = some d ∧ ∃ dp : Disp, s.disps[d]? = some dp ∧ dp.established = true ∧ dp.open_ = true :=
   no_write_when_down _ (C16_invariant r p is) i d hw
 
+/-- Transport state is reset so that a later connect starts afresh: in every reachable state in which no connection
+    exists or is being established (every dispatcher ever created has been closed), a connect request — from the
+    application or as the CONNECT event — creates exactly one new connection attempt. -/
+theorem C16_connect_after_all_closed (r p : Bool) (is : List In)
+    (hc : ∀ dp ∈ (run { reconnectOpt := r, passive := p } is).1.disps, dp.open_ = false) :
+    let s := (run { reconnectOpt := r, passive := p } is).1
+    (step s .connectReq).2 = [.created s.disps.length] ∧ (step s .connectEvt).2 = [.created s.disps.length] := by
+  intro s
+  have hinv : Inv s := C16_invariant r p is
+  have hd : s.nstate = .disconnected := by
+    by_cases hn : s.nstate = .disconnected
+    · exact hn
+    · obtain ⟨d, dp, _, hget, hopen, _⟩ := hinv.cur_open hn
+      have hmem : dp ∈ s.disps := List.mem_of_getElem? hget
+      have := hc dp hmem
+      simp [hopen] at this
+  have hconn : s.connected = false := by
+    obtain ⟨_, _, h3, _⟩ := hinv
+    cases hcn : s.connected with
+    | false => rfl
+    | true => have := h3.mp hcn; rw [hd] at this; cases this
+  constructor
+  · simp [step, createConnection, hd]
+  · simp [step, createConnection, hd, hconn]
+
 /-- A success reply announces the authenticated state once. -/
 theorem C16_authed_announced_once (s : St) : (step s .success).2 = [.authed] := rfl
 
